@@ -304,7 +304,9 @@ func kvLiteral(tb *termBuilder, v ssa.Value) (key, val *Term, ok bool) {
 	return key, val, key != nil && val != nil
 }
 
-func checkCommitAlgebra(c *Ctx, commit *ssa.Function) {
+func checkCommitAlgebra(c *Ctx, commit *ssa.Function) { checkCommitAlgebraAs(c, "C05.R3 commit-algebra", commit) }
+
+func checkCommitAlgebraAs(c *Ctx, rule string, commit *ssa.Function) {
 	p := c.P
 	ff := factsOf(commit)
 	targets := appendTargets(commit, "db/diffdb.Diff")
@@ -359,24 +361,24 @@ func checkCommitAlgebra(c *Ctx, commit *ssa.Function) {
 		key := "cacheDB.commit ⇒ Diff." + field
 		switch field {
 		case "Added":
-			c.Require("C05.R3 commit-algebra", key+" condition", site, "Added only when the key had no initial value (init == nil)", nilInit(fs, true), factsStr(fs))
+			c.Require(rule, key+" condition", site, "Added only when the key had no initial value (init == nil)", nilInit(fs, true), factsStr(fs))
 			et := ff.Term(elem)
-			c.Require("C05.R3 commit-algebra", key+" write", site, "Added key is Set to the current value in the same step", wkind == "Set" && elem != nil && wkey.String() == et.String() && isValue.Match(wval), fmt.Sprintf("writer.%s(%v, %v) elem=%v", wkind, wkey, wval, et))
+			c.Require(rule, key+" write", site, "Added key is Set to the current value in the same step", wkind == "Set" && elem != nil && wkey.String() == et.String() && isValue.Match(wval), fmt.Sprintf("writer.%s(%v, %v) elem=%v", wkind, wkey, wval, et))
 		case "Deleted", "Updated":
 			k, v, ok := kvLiteral(ff.tb, elem)
 			okInit := ok && isInit.Match(v)
-			c.Require("C05.R3 commit-algebra", key+" keeps-init", site, field+" records the pre-commit (init) value under the key", okInit, fmt.Sprintf("KV{%v,%v}", k, v))
+			c.Require(rule, key+" keeps-init", site, field+" records the pre-commit (init) value under the key", okInit, fmt.Sprintf("KV{%v,%v}", k, v))
 			if field == "Deleted" {
-				c.Require("C05.R3 commit-algebra", key+" condition", site, "Deleted only when init != nil and deleted", nilInit(fs, false) && hasBoolFact(fs, isDeleted, true), factsStr(fs))
-				c.Require("C05.R3 commit-algebra", key+" write", site, "deleted key is Del'ed in the same step", wkind == "Del" && ok && wkey.String() == k.String(), fmt.Sprintf("writer.%s(%v)", wkind, wkey))
+				c.Require(rule, key+" condition", site, "Deleted only when init != nil and deleted", nilInit(fs, false) && hasBoolFact(fs, isDeleted, true), factsStr(fs))
+				c.Require(rule, key+" write", site, "deleted key is Del'ed in the same step", wkind == "Del" && ok && wkey.String() == k.String(), fmt.Sprintf("writer.%s(%v)", wkind, wkey))
 			} else {
-				c.Require("C05.R3 commit-algebra", key+" condition", site, "Updated only when init != nil, not deleted, dirty", nilInit(fs, false) && hasBoolFact(fs, isDeleted, false) && hasBoolFact(fs, isDirty, true), factsStr(fs))
-				c.Require("C05.R3 commit-algebra", key+" write", site, "updated key is Set to the current value in the same step", wkind == "Set" && ok && wkey.String() == k.String() && isValue.Match(wval), fmt.Sprintf("writer.%s(%v, %v)", wkind, wkey, wval))
+				c.Require(rule, key+" condition", site, "Updated only when init != nil, not deleted, dirty", nilInit(fs, false) && hasBoolFact(fs, isDeleted, false) && hasBoolFact(fs, isDirty, true), factsStr(fs))
+				c.Require(rule, key+" write", site, "updated key is Set to the current value in the same step", wkind == "Set" && ok && wkey.String() == k.String() && isValue.Match(wval), fmt.Sprintf("writer.%s(%v, %v)", wkind, wkey, wval))
 			}
 		}
 	}
 	for _, f := range []string{"Added", "Updated", "Deleted"} {
-		c.Require("C05.R3 commit-algebra", "cacheDB.commit fills Diff."+f, p.Pos(commit.Pos()), "the diff field is built by appends in commit", seenField[f], "")
+		c.Require(rule, "cacheDB.commit fills Diff."+f, p.Pos(commit.Pos()), "the diff field is built by appends in commit", seenField[f], "")
 	}
 	// no writer call outside the three classified steps
 	nw := 0
@@ -385,7 +387,7 @@ func checkCommitAlgebra(c *Ctx, commit *ssa.Function) {
 			nw++
 		}
 	}
-	c.Require("C05.R3 commit-algebra", "cacheDB.commit writer calls", p.Pos(commit.Pos()), "exactly three writer calls (one per class)", nw == 3, fmt.Sprint(nw))
+	c.Require(rule, "cacheDB.commit writer calls", p.Pos(commit.Pos()), "exactly three writer calls (one per class)", nw == 3, fmt.Sprint(nw))
 }
 
 func factsStr(fs []Fact) string {
